@@ -41,6 +41,7 @@ RExpr(e, vs, fs) ==
     [] e.k = "call" -> [e EXCEPT !.site = (IF e.f \in GlobalBuiltins THEN 0 ELSE Lookup(fs, e.f)),
                                  !.as = [i \in 1..Len(e.as) |-> RExpr(e.as[i], vs, fs)]]
     [] e.k = "mcall" -> [e EXCEPT !.o = RExpr(e.o, vs, fs), !.as = [i \in 1..Len(e.as) |-> RExpr(e.as[i], vs, fs)]]
+    [] e.k = "member" -> [e EXCEPT !.o = RExpr(e.o, vs, fs)]
     [] OTHER -> e
 
 \* Every declaring node carries its own label `d` (parameters: `pd[j]`), unique in the
@@ -71,6 +72,7 @@ RStmt(s, vs, fs) ==
     [] s.k = "seti" -> [s |-> [s EXCEPT !.site = Lookup(vs, s.n), !.is = [j \in 1..Len(s.is) |-> RExpr(s.is[j], vs, fs)],
                                         !.e = RExpr(s.e, vs, fs)], vs |-> vs]
     [] s.k \in {"expr", "ret"} -> [s |-> [s EXCEPT !.e = RExpr(s.e, vs, fs)], vs |-> vs]
+    [] s.k = "setx" -> [s |-> [s EXCEPT !.t = RExpr(s.t, vs, fs), !.e = RExpr(s.e, vs, fs)], vs |-> vs]
     [] s.k = "if" ->
          [s |-> [s EXCEPT !.c = RExpr(s.c, vs, fs), !.t = RBlock(s.t, vs, fs),
                           !.f = IF s.f = <<>> THEN <<>> ELSE <<RBlock(s.f[1], vs, fs)>>], vs |-> vs]
@@ -147,6 +149,7 @@ CExpr(e, vs, fs) ==
              ar == IF e.f \in GlobalBuiltins THEN 1 ELSE FunIn(fs, Len(fs), e.f)
          IN args \cup (IF ar < 0 THEN {"undeclared-function"} ELSE IF ar # Len(e.as) THEN {"arity"} ELSE {})
     [] e.k = "mcall" -> CExpr(e.o, vs, fs) \cup UNION {CExpr(e.as[j], vs, fs) : j \in 1..Len(e.as)}
+    [] e.k = "member" -> CExpr(e.o, vs, fs)
     [] OTHER -> {}
 
 AddTy(scopes, name, ty) == [scopes EXCEPT ![Len(scopes)] = Append(@, [n |-> name, ty |-> ty])]
@@ -173,6 +176,7 @@ CStmts(stmts, i, vs, fs, ctx) ==
                [] s.k = "seti" -> CExpr(s.e, vs, fs) \cup UNION {CExpr(s.is[j], vs, fs) : j \in 1..Len(s.is)}
                                   \cup (IF TyOf(vs, s.n) = "none" THEN {"undeclared-variable"} ELSE {})
                [] s.k = "expr" -> CExpr(s.e, vs, fs)
+               [] s.k = "setx" -> CExpr(s.t, vs, fs) \cup CExpr(s.e, vs, fs)
                [] s.k = "ret" -> CExpr(s.e, vs, fs) \cup (IF ctx.fun THEN {} ELSE {"return-outside-function"})
                [] s.k = "ret0" -> (IF ctx.fun THEN {} ELSE {"return-outside-function"})
                [] s.k = "brk" -> (IF ctx.loop THEN {} ELSE {"break-outside-loop"})
